@@ -381,6 +381,21 @@ def run_case(case):
                         if not NL.close(got, want, 1e-7):
                             vios.append(dict(sig="value:sampler:control", tags=tags, detail="sampler of [u, t, u*x+t] at t=%g (integrator step %d, control interval %d) gives %s, expected %s" % (tq, i, i // M, np.round(got, 6), np.round(want, 6)))); break
                     if vios: break
+            # the list form of the sampler with expressions of different shapes and a vector of query times: every
+            # output is the corresponding single-expression sampler, in its own shape
+            if nx >= 2 and N * M >= 2:
+                tq_vec = np.array([ti[0] + 0.3 * (ti[1] - ti[0]), ti[1] + 0.6 * (ti[2] - ti[1])])
+                exprs_l = [x, x.T, ca.vertcat(x[0] * x[1], st.t, x[1])]
+                outs_l = st.sampler(exprs_l)(gist, tq_vec)
+                for e_, o_ in zip(exprs_l, outs_l):
+                    single = np.array([np.array(st.sampler(e_)(gist, float(t_))).reshape(e_.shape, order="F") for t_ in tq_vec])
+                    o_ = np.asarray(o_, dtype=float)
+                    want_l = single.reshape(o_.shape) if o_.size == single.size and o_.shape != single.shape and set(o_.shape) - {1} == set(single.shape) - {1} else single
+                    if o_.shape != want_l.shape and np.squeeze(o_).shape == np.squeeze(want_l).shape:
+                        o_, want_l = np.squeeze(o_), np.squeeze(want_l)
+                    if o_.shape != want_l.shape or not NL.close(o_, want_l, 1e-9):
+                        vios.append(dict(sig="value:sampler:list", tags=tags, detail="sampler([x, x', [x0*x1, t, x1]]) over 2 query times: the output for an expression of shape %s is %s, the single-expression sampler gives %s" % (e_.shape, np.round(o_, 5).tolist(), np.round(want_l, 5).tolist())))
+                        break
             # vector of query times and a second expression (time itself and a product with the control)
             got = np.array(smp(gist, np.array(ti[:3] if len(ti) >= 3 else ti)))
             if got.shape[0] != len(ti[:3]):
